@@ -597,6 +597,7 @@ type histOpts struct {
 	withDup    bool // sometimes attempt a duplicate label
 	straight   bool // C07: no transfers, no PLP/RTI/STP, no labels
 	rebase     bool // C19 only: SetBase may be called again in mid-stream
+	defineAll  bool // labels still undefined at the end are defined there
 }
 
 var safeAlphabet = "abcdefghijklmnopqrstuvwxyzABCDEFGHIJKLMNOPQRSTUVWXYZ123456789 _-+*=.,:()[]<>!?#%&/"
@@ -776,6 +777,9 @@ func genHistory(g *vf.Rng, o histOpts) (calls []hcall, base string, dist map[str
 			h.add(hcall{Op: "label", S: h.newLabel()})
 		case k == 18 && o.rebase:
 			h.add(hcall{Op: "setbase", Arg: uint32(g.Intn(256))<<16 | uint32(g.Intn(0xF000))})
+		case k == 11 && !o.straight && g.Intn(3) == 0:
+			// the caller tells the assembler about a width it knows (e.g. after a call): moves the tracker, emits nothing
+			h.add(hcall{Op: []string{"assumerep", "assumesep"}[g.Intn(2)], Arg: uint32(1+g.Intn(3)) << 4})
 		case k == 11 && o.straight:
 			h.add(hcall{Op: []string{"assumerep", "assumesep"}[g.Intn(2)], Arg: 0}) // refined by C07 itself
 		case k >= 12 && k <= 16 && o.withRefs:
@@ -878,9 +882,16 @@ func genHistory(g *vf.Rng, o histOpts) (calls []hcall, base string, dist map[str
 			}
 		}
 	}
+	if o.defineAll {
+		for _, l := range undefined {
+			h.add(hcall{Op: "label", S: l})
+			if g.Bool() {
+				h.pad(g.Intn(4))
+			}
+		}
+	}
 	return h.calls, base, h.dist
 }
-
 
 // genFarHistory builds a short program that spans almost a whole bank: a
 // label reference whose target is tens of thousands of bytes away (around the
